@@ -679,6 +679,10 @@ func c20Export(p *ana.Prog, r *ana.Result) {
 		lbl, _ := args[1].(*ssa.Const)
 		ln, _ := ana.ConstInt(args[3])
 		ctx, okCtx := constByteArray(args[2])
+		if !okCtx {
+			// built step by step (make, PutUint16, append ...): evaluated with append's aliasing rule
+			ctx, okCtx = evalBytesAt(ek, c, args[2])
+		}
 		// destination field of result #0
 		dest := ""
 		if call, ok := c.(*ssa.Call); ok {
